@@ -259,6 +259,14 @@ func (c *ProtoCodecObj) Invoke(m *Machine, method string, a []Value) Value {
 		if !ok || ptr == nil {
 			panic(unsupported("codec.Unmarshal into a non-pointer"))
 		}
+		if len(bz) == 0 && kind == "proto" {
+			// protobuf: the empty encoding is the zero message
+			*ptr = m.zero(deref(dst.t))
+			if must {
+				return nil
+			}
+			return Iface{}
+		}
 		payload, e := m.unmarshalOpaque(kind, bz)
 		if e == nil || !types.Identical(e.typ, dst.t) {
 			if must {
